@@ -563,7 +563,10 @@ MutHazards(mu, sig) ==
                             /\ DbType(old.ftype, old.attrs) #
                                DbType(mu.ftype, Drop(mu.attrs, "related_model"))
              changed == { a \in DOMAIN mu.attrs : AttrValue(old, a) # mu.attrs[a] }
-         IN (IF typeChanged /\ "null" \in changed THEN {"typechange-with-null"} ELSE {})
+             \* a type change REPLACES the attributes: a nullable column becomes NOT NULL unless
+             \* null=True is stated again, and no initial value is asked for
+             nullChanges == AttrValue(old, "null") # Get(mu.attrs, "null", FALSE)
+         IN (IF typeChanged /\ ("null" \in changed \/ nullChanges) THEN {"typechange-with-null"} ELSE {})
     ELSE {}
 
 NoOp == Op("none", FALSE, FALSE, None)
